@@ -369,6 +369,8 @@ impl Run {
             }
         }
 
+        // stale replay files of earlier runs of this property would be misleading
+        let _ = std::fs::remove_dir_all(self.root.join("replays").join(self.id));
         let mut exit = 0;
         let mut lines = Vec::new();
         let mut machinery = sh.machinery_errors.clone();
